@@ -27,6 +27,10 @@ Fixpoint dm (fuel : nat) (l : list Z) {struct fuel} : option (mstmt * list Z) :=
     | 10 :: nm :: r => obind (dbodyn r) (fun '(b, r1) => Some (MCallBlock nm b, r1))
     | 11 :: r => Some (MCaller, r)
     | 12 :: t :: r => Some (MInclude t, r)
+    | 13 :: r => Some (MFail, r)
+    | 14 :: nm :: r => Some (MAttempt nm, r)
+    | 15 :: r => Some (MAttemptCaller, r)
+    | 16 :: nm :: r => obind (dbodyn r) (fun '(b, r1) => Some (MBlock nm b, r1))
     | _ => None
     end
   end.
@@ -38,32 +42,48 @@ Fixpoint dm_list (n : nat) (l : list Z) : option (list mstmt * list Z) :=
   end.
 
 (* ntemplates [namelen c.. nstmts stmts..].. : the mode of each template comes from its NAME (C02/Names.v) *)
-Fixpoint dtpls (n : nat) (l : list Z) : option (list (emode * list mstmt)) :=
+Fixpoint dtpls (n : nat) (l : list Z) : option (list (emode * list mstmt) * list Z) :=
   match n with
-  | O => Some []
+  | O => Some ([], l)
   | S n =>
       match l with
       | nl :: r =>
           obind (take_n (Z.to_nat nl) r) (fun '(name, r1) =>
           match r1 with
           | ns :: r2 => obind (dm_list (Z.to_nat ns) r2) (fun '(body, r3) =>
-                        obind (dtpls n r3) (fun rest => Some ((default_mode name, body) :: rest)))
+                        obind (dtpls n r3) (fun '(rest, r4) => Some ((default_mode name, body) :: rest, r4)))
           | [] => None
           end)
       | [] => None
       end
   end.
 
+Definition enc_out (o : outcome (list Z)) : list Z :=
+  match o with
+  | Ok t => 0 :: lenZ t :: t
+  | Err c => [1; c]
+  | Panic => [2]
+  | OutOfGas => [8]
+  end.
+
+(* after the templates: nq queries, each 1 name (call_macro) | 2 name (render_block) *)
+Fixpoint dqueries (n : nat) (l : list Z) : list mquery :=
+  match n, l with
+  | S n, 1 :: nm :: r => QMacro nm :: dqueries n r
+  | S n, 2 :: nm :: r => QBlock nm :: dqueries n r
+  | _, _ => []
+  end.
+
+(* output: the render, then every query, each as 0 n c.. | 1 code | 2 | 8 *)
 Definition run_modes_enc (inp : list Z) : list Z :=
   match inp with
   | nt :: r =>
       match dtpls (Z.to_nat nt) r with
-      | Some tpls =>
-          match run_modes tpls 60 with
-          | Ok o => 0 :: lenZ o :: o
-          | Err c => [1; c]
-          | Panic => [2]
-          | OutOfGas => [8]
+      | Some (tpls, rest) =>
+          enc_out (run_modes tpls 60) ++
+          match rest with
+          | nq :: r2 => flat_map (fun q => enc_out (run_query tpls 60 q)) (dqueries (Z.to_nat nq) r2)
+          | [] => []
           end
       | None => [9]
       end
